@@ -129,6 +129,26 @@ def r2_refpat(lines, origin, repo, relfile):
     return out, oo, notes
 
 
+def r2t_refpat_tuple(lines, origin, repo, relfile):
+    """if let Some((&x, y)) = E {  ->  if let Some((x__r, y)) = E { let x = *x__r;
+    (reference pattern inside a tuple pattern, e.g. `slice.split_first()`; x must be Copy, which rustc
+    checks on the rewritten text as well since `*x__r` moves out of a shared reference otherwise)"""
+    out, oo, notes = [], [], []
+    pat = re.compile(r'^(\s*)if let Some\(\(&(\w+), (\w+)\)\) = (.*) \{\s*$')
+    for l, o in zip(lines, origin):
+        mm = pat.match(l)
+        if mm:
+            ind, x, y, e = mm.groups()
+            out.append("%sif let Some((%s__r, %s)) = %s { let %s = *%s__r;" % (ind, x, y, e, x, x))
+            notes.append("R2t %s:%d `Some((&%s, %s))` pattern -> deref binding" % (relfile, o, x, y))
+        else:
+            if re.search(r'Some\(\(&', l) and not l.strip().startswith('//'):
+                raise RewriteError("R2t: unknown `Some((&..` pattern shape at %s:%d: %s" % (relfile, o, l.strip()))
+            out.append(l)
+        oo.append(o)
+    return out, oo, notes
+
+
 def r3_debug_assert(lines, origin, repo, relfile):
     """debug_assert_eq!(a, b);  ->  assert(a == b);   (becomes a proof obligation)"""
     out, oo, notes = [], [], []
@@ -436,6 +456,7 @@ RULES = {
     'R0': r0_name_return,
     'R1': r1_stepby,
     'R2': r2_refpat,
+    'R2t': r2t_refpat_tuple,
     'R3': r3_debug_assert,
     'R4': r4_trait,
     'R4i': r4_inline,
